@@ -1,11 +1,37 @@
 """C10 Result objects deliver exactly the underlying rows under any access pattern.
 
-Engine H: for every (source, view prefix, row set) the consumption-op alphabet is
+Engine H: for every (source, view prefix, row list) the consumption-op alphabet is
 explored breadth-first by replay on fresh real Result objects, in lock-step with
 the plain-list reference model ``vf.models.result_ref``; states are de-duplicated
-on (model state, implementation fingerprint) and the search runs to fixpoint.
+on (model state, fetch-strategy fingerprint) and the search runs to fixpoint.
+Sources and views live in ``vf.worlds.resultworld`` / ``VIEWS`` below.
 
-Mutations caught: (filled in at the end of the build, see bottom of this docstring)
+A mismatch whose cause is one of the root causes found while building the check
+gets that root cause's constant signature F1..F6 (diagnosed by re-running the
+reference model with exactly that deviation switched on, or by the structural
+condition that triggers it); everything else gets the minimal concrete case
+(BFS = shortest history first, row lists simplest first) as its signature.
+
+The same enumeration on the compiled extension modules is left to C55
+(compiled-vs-pure differential); this check runs on the .py sources.
+
+Mutations caught (private copy, each gives VIOLATION lines with new signatures):
+  N1 cursor.py BufferedRowCursorFetchStrategy.fetchmany: soft-close at once instead of the
+     deferred ``close = True`` (buffered rows lost)            -> cur_sr2: fetchmany(2) returns []
+  N2 _result_cy.py _manyrow_getter (unique): ``num_required = num - len(made_rows)``
+                                                                -> cur_sr1/unique: fetchmany(2) ; first
+  N3 _result_cy.py _only_one_row: drop the ``_soft_close(hard=True)`` of first()/scalar()
+                                                                -> iter: first ; next delivers a row
+  N4 _result_cy.py _iterator_getter: post-creational filter applied before the unique test
+                                                                -> iter/scalars.unique: next ; iter1
+  N5 cursor.py FullyBufferedCursorFetchStrategy.fetchmany: ``min(size, len(rb) - 1)``
+                                                                -> cur_full: fetchmany(1) returns []
+  N6 cursor.py BufferedRowCursorFetchStrategy._buffer_rows: last row of a grown (>5) buffer dropped
+                                                                -> only the 13-row shard cur_sr7: list
+  N7 result.py FrozenResult.__init__: data from _raw_row_iterator() instead of fetchall()
+     (projection of columns() lost)                             -> frozen_c10: next
+  N8 _result_cy.py _manyrow_getter: ``if num is None: num = yield_per`` removed
+                                                                -> chunk/yield_per2: fetchmany(None)
 """
 import warnings
 from collections.abc import Sequence
@@ -24,11 +50,33 @@ META = dict(
     engine="H",
     technique="explicit-state BFS over consumption histories of real Result objects, plain-list reference model in lock-step, canonical-state dedupe to fixpoint",
     design_ref="DESIGN.md §5 C10",
-    level_text="placeholder",
-    level_note="placeholder",
-    rule="placeholder",
-    assumptions=[],
-    bounds=dict(quick="placeholder", thorough="placeholder"),
+    level_text="Every way of obtaining a Result over a row list (IteratorResult, scalar-source IteratorResult, ChunkedIteratorResult "
+    "static and dynamic_yield_per, CursorResult from a SQLite SELECT with the default / BufferedRow (stream_results, max_row_buffer 1,2[,3,7,1000], "
+    "yield_per) / FullyBuffered fetch strategies, FrozenResult re-hydration of plain, projected, uniqued and cursor results, MergedResult of two "
+    "[three, two cursors], ORM column results incl. a dialect with server side cursors) x every view prefix (unique with default and explicit "
+    "strategy, scalars, mappings, columns, tuples, yield_per and their combinations, before or after the filter object is made) x every row list "
+    "of 0..3 (quick) / 0..4 (thorough) rows over 3 row values whose projections collide (duplicates, NULL, an unhashable JSON variant) is explored "
+    "as a state machine: all consumption ops (next, iter-then-next, live iterator, fetchone, fetchmany 1/2/[3]/None, fetchall, all, list, partitions "
+    "first/all with 2/None, first, one, one_or_none, scalar, scalar_one, scalar_one_or_none, close, freeze; for filter views also ops on the "
+    "parent Result) are applied on a fresh replay of the history and compared with the list model (value or exception class, Row._fields, "
+    ".closed). States are deduplicated on (model state, fetch-strategy buffer fingerprint) and BFS runs until no new state appears, so the "
+    "result holds for op sequences of every length over this alphabet. A 13-row list exercises buffer growth.",
+    level_note="Trusted: vf/models/result_ref.py (about 250 lines, no SQLAlchemy import) and the SQLite driver. Where the documentation leaves an "
+    "outcome open the model accepts the allowed set: fetchmany()/partitions() without size and without yield_per may return any non-empty prefix; "
+    "after first()/one()/scalar*() a later fetch may raise ResourceClosedError or report exhaustion but must not deliver a row; freeze() on a "
+    "unique() result may or may not be de-duplicated (TODO in the source); freeze() only on unconsumed results (documented precondition); ORM "
+    "yield_per + unique() must raise InvalidRequestError. The FullyBuffered strategy is installed through an after_cursor_execute listener the "
+    "way a dialect's post_exec() does; the server-side-cursor code path (context._is_server_side, ORM dynamic_yield_per) through a pysqlite "
+    "sub-dialect that hands out a normal sqlite3 cursor as server side cursor. Runs on the pure-Python sources (C55 compares the compiled "
+    "extension).",
+    rule="state = (source, view, row list, cursor index, seen sets, closure, live-iterator flag, buffer fingerprint); transition = one op on a "
+    "replayed state, executed on the implementation and the model; non-trivial = applied mid-stream (0 < consumed < n) on a list of >= 2 rows",
+    assumptions=["single-threaded use of a Result", "row values are ints/strings/None/lists; uniqueness by value",
+                 "SQLite returns rows in ORDER BY order", "view modifiers are applied before the first fetch (yield_per after a fetch is documented as unsupported)"],
+    bounds=dict(
+        quick="fixpoint (all op-sequence lengths) for all row lists of 0..3 rows (0..2 for the unhashable variant and ORM sources) x 17 sources (6 primary x 19 views, the others x 8-9 views); 13-row list x 9 sources x 3 views",
+        thorough="fixpoint for all row lists of 0..4 rows (0..3 ORM) x 25 sources x <=22 views, fetchmany(3) added; 13-row list x 9 sources x 3 views",
+    ),
 )
 
 # ------------------------------------------------------------------ views
@@ -60,10 +108,6 @@ VIEWS = {
     "columns0": [("columns", (0,))],
 }
 VIEWS_1COL = ("-", "unique", "scalars", "scalars.unique", "unique.scalars", "mappings", "columns0", "yield_per2", "unique.yield_per2")
-
-
-def _is_unique_view(vname):
-    return "unique" in vname
 
 
 # ------------------------------------------------------------------ alphabet
@@ -215,6 +259,9 @@ F3 = ("ChunkedIteratorResult(dynamic_yield_per=True): fetchmany()/partitions() a
       "rest of the chunk buffered in self.iterator (ORM result on a server side cursor loses rows)")
 F4 = ("unique().scalar_one()/scalar_one_or_none() de-duplicate on the whole row, not on the scalar "
       "(documented as equivalent to scalars().one()/one_or_none())")
+F6 = ("scalar-source result (ORM single entity): a row whose value is None is taken for the end of the result by "
+      "fetchone()/next()/first()/one()/scalar*() (select(A).select_from(U).outerjoin(U.addrs): one() raises NoResultFound, "
+      "fetchone() returns None although rows follow)")
 F5 = ("CursorResult: an iterator obtained before the result was exhausted by another fetch method raises "
       "AttributeError ('NoneType' object has no attribute 'fetchone') instead of StopIteration")
 
@@ -244,6 +291,10 @@ def diagnose(cfg, src, st, hist_, op, obs):
             alt = ref.apply(cfg, st, target, name, arg, ignore_seen=ign, scalar_row_unique=rowu)
             if ref.match(cfg, alt, obs) is not None:
                 return sig
+    if src.scalar_source and any(r[0] is None for r in cfg.rows):
+        names = [h[1] for h in hist_] + [name]
+        if any(x in SINGLE or x in ref.ONE_FAMILY for x in names):
+            return F6
     if src.merged and st.closed in ("hard", "any") and obs != ref.RCE and obs[0] != "?":
         return F2
     if src.dynamic:
@@ -253,8 +304,10 @@ def diagnose(cfg, src, st, hist_, op, obs):
         first_single = next((i for i, x in enumerate(seq) if x in SINGLE), None)
         if first_single is not None and any(x in MANY for x in seq[first_single + 1:]):
             return F3
-    if src.cursor and name == "hold_next" and obs == ("X", "AttributeError") and st.pos >= cfg.n:
-        return F5
+    if src.cursor and name == "hold_next" and obs == ("X", "AttributeError"):
+        exp = ref.apply(cfg, st, target, name, arg)
+        if exp[0] == "det" and exp[2] == ("X", "StopIteration"):
+            return F5
     return None
 
 
@@ -390,11 +443,17 @@ LONG_VIEWS = ["-", "unique", "scalars"]
 ORM_VIEWS = ("-", "unique", "unique_s", "scalars", "scalars.unique", "mappings", "columns10", "yield_per2", "unique.yield_per2")
 
 
+PRIMARY_Q = ("iter", "chunk", "cur", "cur_sr1", "frozen_cur", "merged")
+SECONDARY_VIEWS_Q = ("-", "unique", "scalars", "scalars.unique", "unique.mappings", "columns10", "yield_per2", "unique.yield_per2")
+
+
 def views_for(src, tier):
     if len(src.keys) == 1:
         return list(VIEWS_1COL)
     if src.orm:
         return list(ORM_VIEWS)
+    if tier == "quick" and src.name not in PRIMARY_Q:
+        return list(SECONDARY_VIEWS_Q)
     names = [v for v in VIEWS if v != "columns0"]
     if tier == "quick":
         names = [v for v in names if v not in ("yield_per1", "scalars.unique.yield_per2", "scalars1")]
@@ -431,6 +490,8 @@ def run_shard(shard, tier, rec):
     maxlen = 3 if tier == "quick" else 4
     if tier == "quick" and (variant == "u" or src.orm):
         maxlen = 2
+    elif src.orm or variant == "u":
+        maxlen = 3
     maxd = 0
     for idxs in rw.all_rowsets(maxlen):
         ex = Explorer(rec, src, vname, variant, idxs, tier)
@@ -454,6 +515,13 @@ def replay(case):
     st = cfg.initial()
     out = []
     done = []
+    if ex.incompat:
+        with warnings.catch_warnings():
+            warnings.simplefilter("ignore")
+            obs, _ = observe(cfg, env, op)
+        if obs != ("X", "InvalidRequestError"):
+            out.append(("%s view=%s: ORM yield_per with unique(): %s -> got %r, documented InvalidRequestError" % (src.name, case["view"], opstr(op), obs), repr(obs)))
+        return out
     for h in hist_ + [op]:
         ns, obs, problem, known = lockstep(cfg, src, env, st, done, h)
         if problem is not None:
